@@ -290,6 +290,33 @@ def check(run):
             seen.add(json.dumps({k_: v for k_, v in last.items() if k_ != "go"}, sort_keys=True).replace(d, "DIR"))
         if len(seen) > 1:
             wits.append({"kind": "the same build/edit/link history run in %d fresh processes ended with %d different link results" % (runs_per, len(seen)), "history": h, "shape": c15mod.SHAPES[shape], "results": sorted(seen)[:3]})
+    # the files of one package handed to check/build in every order: identical interface, core and linked program
+    import itertools
+
+    mf = {"Lib/a.gom": "package Lib\nstruct LA { v: int32 }\nfn la(n: int32) -> LA { LA { v: n } }\n",
+          "Lib/b.gom": "package Lib\nenum LB { B0, B1(LA) }\nfn lb(x: LA) -> LB { B1(x) }\nfn lg[T](x: T) -> T { x }\n",
+          "Lib/c.gom": "package Lib\ntrait LT { fn lt(Self) -> int32; }\nimpl LT for LA { fn lt(self: LA) -> int32 { self.v } }\nimpl LT for int32 { fn lt(self: int32) -> int32 { self + 1 } }\n",
+          "main.gom": "package Main\nimport Lib\nfn main() { let x = Lib::la(3); let _ = string_println(int32_to_string(Lib::LT::lt(Lib::lg(x)))); match Lib::lb(Lib::la(1)) { Lib::LB::B0 => (), Lib::LB::B1(y) => string_println(int32_to_string(Lib::LT::lt(y.v))) } }\n"}
+    libfiles = ["Lib/a.gom", "Lib/b.gom", "Lib/c.gom"]
+    order_cases = []
+    for k_, perm in enumerate(itertools.permutations(libfiles)):
+        for verb in ("build", "check"):
+            ops = [{"op": "write", "path": f_, "text": t_} for f_, t_ in mf.items()] + [{"op": verb, "pkg": "Lib", "inputs": list(perm)}, {"op": "read", "path": "out/Lib.interface"}]
+            if verb == "build":
+                ops += [{"op": "read", "path": "out/Lib.core"}, {"op": "build", "pkg": "Main", "inputs": ["main.gom"]}, {"op": "link", "pkgs": ["Lib", "Main"]}]
+            order_cases.append((verb, perm, {"dir": os.path.join(root, "ord%d%s" % (k_, verb)), "ops": ops}))
+    ores = vlib.run_harness("sep", [c_[2] for c_ in order_cases])
+    seen_o = {}
+    for (verb, perm, case), r_ in zip(order_cases, ores):
+        rs = r_["results"][len(mf):]
+        key = json.dumps([{k2: v2 for k2, v2 in x.items()} for x in rs], sort_keys=True).replace(case["dir"], "DIR")
+        seen_o.setdefault(verb, {}).setdefault(key, perm)
+        if not all(x.get("ok", True) for x in rs if "panic" not in x) or any("panic" in x for x in rs):
+            if verb == "build" and not rs[-1].get("ok"):
+                wits.append({"kind": "a package whose files are listed as %s does not build and link" % (list(perm),), "files": mf, "results": [{k2: str(v2)[:200] for k2, v2 in x.items()} for x in rs]})
+    for verb, ks in seen_o.items():
+        if len(ks) > 1:
+            wits.append({"kind": "%s of one package with its files listed in different orders gives %d different results (interface / core / linked Go)" % (verb, len(ks)), "files": mf, "orders": [list(v_) for v_ in ks.values()][:3]})
     det_checked = 0
     with ThreadPoolExecutor(max_workers=vlib.NCPU) as ex:
         for path, outs in ex.map(one, jobs):
